@@ -523,6 +523,11 @@ func (rr *restartRun) compareRecovered(prop string, old, got map[string]*CanonKe
 			case mustDead && present:
 				if !h.IsAof {
 					bad("unpersisted_hold_restored", "key %s: hold %s was not persisted but is held after the restart", k, h.Lid[2:6])
+				} else if h.EFlag&efMs != 0 && h.AofTime != 0xff && h.Deadline+int64(h.AofTime)+1 >= loadFrom-2 {
+					// finding F21 once more: the record of a millisecond hold carries the full duration and the
+					// time it was written (later than the grant by the persistence delay), so at the load the
+					// record has not expired although the hold has, and the hold starts its period again
+					bad("ms_expired_hold_restored", "key %s: hold %s with millisecond expiry expired at %d, before the restart at %d, but is held again: its record was written %d s after the grant and carries the full duration", k, h.Lid[2:6], h.Deadline, loadFrom, h.AofTime)
 				} else {
 					bad("expired_hold_restored", "key %s: hold %s expired at %d, before the restart at %d, but is held again", k, h.Lid[2:6], h.Deadline, loadFrom)
 				}
